@@ -81,3 +81,14 @@ func vsStack(backend ociregistry.Interface, opts *Options) (ociregistry.Interfac
 	}
 	return c, tr
 }
+
+// vsStackHandler: a client over its own in-memory wire to an existing handler (several
+// clients may share one server).
+func vsStackHandler(h http.Handler) (ociregistry.Interface, *vsTransport) {
+	tr := &vsTransport{h: h}
+	c, err := ociclient.New("h.example", &ociclient.Options{Transport: tr})
+	if err != nil {
+		panic(err)
+	}
+	return c, tr
+}
